@@ -128,26 +128,27 @@ type c10Sup struct {
 }
 
 type c10Step struct {
-	Op      c10Op    `json:"op"`
-	Rev     int      `json:"rev"` // effective target revision
-	Now     int      `json:"now"`
-	RSet    string   `json:"rset"` // refresh.retain as set: `` unset, `n5` number, `s5` string
-	Sup     *c10Sup  `json:"sup,omitempty"`
-	HookCfg int      `json:"hookcfg"`
-	Before  c10State `json:"-"`
-	Retain  int      `json:"retain"` // what refreshRetain answers before the operation
-	Err     bool     `json:"err"`    // the entry point refused (no change created)
-	ErrMsg  string   `json:"errmsg,omitempty"`
-	Panic   string   `json:"panic,omitempty"` // the entry point of the real code panicked (reported as a refusal; the history stops)
-	Kinds   []string `json:"kinds,omitempty"`
-	KRevs   []int    `json:"krevs,omitempty"` // revision of each task's own snap-setup
-	K       int      `json:"k"`               // effective failure position (0 none)
-	NPos    int      `json:"npos"`            // number of failure positions of the change (tasks + 1)
-	Status  string   `json:"status,omitempty"`
-	Copies  int      `json:"copies"` // copy-data backend operations during the change
-	InUse   []int    `json:"inuse,omitempty"`
-	Retried int      `json:"retried,omitempty"` // tasks that answered state.Retry and were run again
-	After   c10State `json:"after"`
+	Op      c10Op     `json:"op"`
+	Rev     int       `json:"rev"` // effective target revision
+	Now     int       `json:"now"`
+	RSet    string    `json:"rset"` // refresh.retain as set: `` unset, `n5` number, `s5` string
+	Sup     *c10Sup   `json:"sup,omitempty"`
+	HookCfg int       `json:"hookcfg"`
+	Before  c10State  `json:"-"`
+	Seed    *c10State `json:"seed,omitempty"` // first step of a seeded history only: the state the history starts from
+	Retain  int       `json:"retain"`         // what refreshRetain answers before the operation
+	Err     bool      `json:"err"`            // the entry point refused (no change created)
+	ErrMsg  string    `json:"errmsg,omitempty"`
+	Panic   string    `json:"panic,omitempty"` // the entry point of the real code panicked (reported as a refusal; the history stops)
+	Kinds   []string  `json:"kinds,omitempty"`
+	KRevs   []int     `json:"krevs,omitempty"` // revision of each task's own snap-setup
+	K       int       `json:"k"`               // effective failure position (0 none)
+	NPos    int       `json:"npos"`            // number of failure positions of the change (tasks + 1)
+	Status  string    `json:"status,omitempty"`
+	Copies  int       `json:"copies"` // copy-data backend operations during the change
+	InUse   []int     `json:"inuse,omitempty"`
+	Retried int       `json:"retried,omitempty"` // tasks that answered state.Retry and were run again
+	After   c10State  `json:"after"`
 }
 
 func (s *verifC10Suite) observe(c *C, w *c10World) c10State {
@@ -934,6 +935,10 @@ func c10Sweeps(tier string) []c10In {
 		// the projection does not describe, so these histories run with the default 3 of a core device)
 		{Core: true, Snap: "core", Seed: 4, Ops: []c10Op{{Kind: "refresh", InUse: []int{2, 1}}, {Kind: "refresh", InUse: []int{5}},
 			{Kind: "refresh", InUse: []int{4, 6}}, {Kind: "refresh", InUse: []int{4}}, {Kind: "refresh", Rev: 1, InUse: []int{6, 8}}}},
+		// ... a seeded history whose FIRST operation fails after three completed discards (the recorded fail-after-discard
+		// class met from the seeded start state), and a second failing refresh on the already garbage-collected state
+		{Core: true, Snap: "core", Seed: 6, Ops: []c10Op{{Kind: "refresh", Fail: 23, InUse: []int{4, 5}},
+			{Kind: "refresh", Fail: 20, InUse: []int{6}}, {Kind: "refresh", InUse: []int{5}}}},
 		{Core: true, Snap: "core", Seed: 5, Ops: []c10Op{{Kind: "refresh", InUse: []int{1, 3}},
 			{Kind: "refresh", InUse: []int{3}, Fail: 19}, {Kind: "refresh", InUse: []int{6, 3}}, {Kind: "refresh", InUse: []int{2}}}},
 		// C11: failures at every task of remove / disable / enable changes (what the completed tasks' undo leaves)
@@ -1057,6 +1062,9 @@ func c10Gen(r *vh.Rand, tier string, n int) []c10In {
 
 func (s *verifC10Suite) exec(c *C, in c10In) vh.Out {
 	steps, seed := s.play(c, in)
+	if in.Seed > 0 && len(steps) > 0 {
+		steps[0].Seed = &seed // readers of the JSON record (classify) need the start state of a seeded history
+	}
 	coq := make([]string, len(steps))
 	tagset := map[string]bool{}
 	nontrivial := false
